@@ -243,14 +243,16 @@ class NPProxy:
     def max(self, x, axis=None, **kw):
         if not _anyobj(x):
             return np.max(x, axis=axis, **kw)
-        return _reduce_cmp(np.asarray(x), axis, lambda a, b: bool(tosym(a) >= tosym(b)))
+        r = _reduce_cmp(np.asarray(x), axis, lambda a, b: bool(tosym(a) >= tosym(b)))
+        return r if isinstance(r, np.ndarray) else tosym(r)
 
     amax = max
 
     def min(self, x, axis=None, **kw):
         if not _anyobj(x):
             return np.min(x, axis=axis, **kw)
-        return _reduce_cmp(np.asarray(x), axis, lambda a, b: bool(tosym(a) <= tosym(b)))
+        r = _reduce_cmp(np.asarray(x), axis, lambda a, b: bool(tosym(a) <= tosym(b)))
+        return r if isinstance(r, np.ndarray) else tosym(r)
 
     amin = min
 
